@@ -106,9 +106,16 @@ class ChunkStream extends stream_mod.Readable {
 
 // an exception thrown inside a stream event handler is not delivered to any promise: route it to the case that is running
 let current_reject = null;
+let late_exceptions = [];
+let late_exception_count = 0;
 process.on('uncaughtException', (e) => {
     if (current_reject !== null) { let r = current_reject; current_reject = null; r(e); }
-    else { console.error('uncaught exception outside a case: ' + (e && e.stack ? e.stack : String(e))); process.exit(4); }
+    else {
+        // thrown by a stream event handler after the delivery it belongs to was settled (or between deliveries): remembered and reported as a
+        // failure of the run, the enumeration goes on
+        if (late_exceptions.length < 5) late_exceptions.push({message: String(e && e.message).substring(0, 300), where: String(e && e.stack).split('\n').slice(1, 3).join(' | ').substring(0, 400)});
+        late_exception_count += 1;
+    }
 });
 function guarded(work) {
     return new Promise((resolve, reject) => {
@@ -375,6 +382,46 @@ async function op_large(op) {
     return {results: out};
 }
 
+class SlowChunkStream extends stream_mod.Readable {
+    // one prescribed Buffer per event-loop turn, so that the chunks of two streams really alternate
+    constructor(chunks) { super(); this.chunks = chunks; this.pos = 0; }
+    _read() {
+        setImmediate(() => {
+            if (this.pos < this.chunks.length) this.push(this.chunks[this.pos++]);
+            else this.push(null);
+        });
+    }
+}
+
+async function op_interleaved(op) {
+    // two readers open at the same time (as for a JOIN of two CSV streams): the events of the two streams interleave chunk by chunk;
+    // each reader must give what it gives alone.  [{a_hex, a_cuts, b_hex, b_cuts, cfg}]
+    let out = [];
+    for (const c of op.cases) {
+        let a = Buffer.from(c.a_hex, 'hex'), b = Buffer.from(c.b_hex, 'hex');
+        let alone_a = await deliver([a], c.cfg), alone_b = await deliver([b], c.cfg);
+        let enc = c.cfg.enc == 'latin-1' ? 'binary' : c.cfg.enc;
+        let run = async (chunks) => {
+            let res = {error: null, error_kind: null, records: null, warnings: null};
+            try {
+                let st = new SlowChunkStream(chunks);
+                let it = new rbql_csv.CSVRecordIterator(st, null, enc, c.cfg.dlm, c.cfg.policy, false, c.cfg.comment_prefix);
+                res.records = await it.get_all_records();
+                res.warnings = it.get_warnings().map(classify).sort();
+            } catch (e) {
+                res.error = (e && e.constructor) ? e.constructor.name : 'unknown';
+                res.error_kind = classify(e && e.message);
+                res.records = null; res.warnings = null;
+            }
+            return res;
+        };
+        let both = await guarded(async () => Promise.all([run(split_by_cuts(a, c.a_cuts)), run(split_by_cuts(b, c.b_cuts))]));
+        out.push({alone_a: alone_a, alone_b: alone_b, together_a: both[0], together_b: both[1],
+                  same: canon(alone_a) == canon(both[0]) && canon(alone_b) == canon(both[1])});
+    }
+    return {results: out};
+}
+
 async function main() {
     let batch = JSON.parse(fs.readFileSync(process.argv[3], 'utf8'));
     let results = [];
@@ -383,9 +430,11 @@ async function main() {
         else if (op.op == 'list') results.push(await op_list(op));
         else if (op.op == 'cases') results.push(await op_cases(op));
         else if (op.op == 'large') results.push(await op_large(op));
+        else if (op.op == 'interleaved') results.push(await op_interleaved(op));
         else throw new Error('unknown op ' + op.op);
     }
-    fs.writeFileSync(process.argv[4], JSON.stringify({ok: true, repo_js: REPO_JS, results: results, delivery_check_failures: delivery_check_failures, delivery_check_example: delivery_check_example}));
+    fs.writeFileSync(process.argv[4], JSON.stringify({ok: true, repo_js: REPO_JS, results: results, delivery_check_failures: delivery_check_failures, delivery_check_example: delivery_check_example,
+                                                      late_exceptions: late_exceptions, late_exception_count: late_exception_count}));
 }
 
 main().then(() => { process.exit(0); }, (e) => { console.error(e && e.stack ? e.stack : String(e)); process.exit(3); });
@@ -451,6 +500,9 @@ def finish_node(ctx, handle, timeout):
     with open(op) as f:
         res = json.load(f)
     assert res.get('ok') and res.get('repo_js') == REPO_JS, res.get('repo_js')
+    if res.get('late_exception_count'):
+        ctx.late = getattr(ctx, 'late', [])
+        ctx.late.append({'count': res['late_exception_count'], 'examples': res.get('late_exceptions', [])})
     return res
 
 
@@ -799,6 +851,9 @@ def js_stream_reader_chunk_independence(prop, tier, seed):
     finally:
         ctx.close()
     fails = one_sink.items
+    if getattr(ctx, 'late', None):
+        fails = list(fails) + [{'replay': 'none', 'key': 'exception-in-a-stream-handler-outside-any-delivery', 'expected': 'no exception escapes the event handlers of the reader',
+                                'observed': ctx.late[:3], 'count': sum(x['count'] for x in ctx.late)}]
     n_exh = sum(6 ** n for n in range(l_exh + 1))
     total = stats['deliveries'] + stats['bulk'] + n_oracle + 2 * n_large
     rule = ('rbql_csv.CSVRecordIterator of %s in stream mode (a real stream.Readable emitting the prescribed Buffers, csv_path null), policies simple / quoted / quoted_rfc (comma) x comment prefix {none, #}: '
@@ -818,6 +873,44 @@ def js_stream_reader_chunk_independence(prop, tier, seed):
                             'a stream.Readable subclass whose _read() pushes one prescribed Buffer per call delivers them as separate \'data\' events (checked for every delivery by a second listener)',
                             'the exhaustive part is sharded over %d node processes by residue class of the word index; the longer ASCII inputs are a seeded sample, not exhaustive' % shards,
                             'chunk boundaries of fs.createReadStream are at multiples of 65536 (checked per file)']}
+
+
+@job('C20')
+def js_stream_readers_do_not_interfere(prop, tier, seed):
+    """two stream readers open at the same time (a JOIN of two CSV streams): each must give what it gives alone, whatever the chunks"""
+    ctx = NodeCtx()
+    fails = []
+    n = 0
+    try:
+        cfg = cfg_of('quoted', None)
+        samples = [s_.encode('utf-8') for s_ in UTF8_SAMPLES if len(s_.encode('utf-8')) >= 3][:8 if tier == 'quick' else len(UTF8_SAMPLES)]
+        cases = []
+        for a in samples:
+            inner_a = [i for i in range(1, len(a)) if (a[i] & 0xC0) == 0x80]          # cuts inside a multi-byte character
+            for b in samples[:4]:
+                inner_b = [i for i in range(1, len(b)) if (b[i] & 0xC0) == 0x80]
+                for ca in inner_a[:3]:
+                    cases.append({'a_hex': a.hex(), 'a_cuts': [ca], 'b_hex': b.hex(), 'b_cuts': [], 'cfg': cfg})
+                    for cb in inner_b[:2]:
+                        cases.append({'a_hex': a.hex(), 'a_cuts': [ca], 'b_hex': b.hex(), 'b_cuts': [cb], 'cfg': cfg})
+        cases += [{'a_hex': b'a\r\nb\n'.hex(), 'a_cuts': [2], 'b_hex': b'\nc\r'.hex(), 'b_cuts': [1], 'cfg': cfg_of('simple', None)},
+                  {'a_hex': b'x,"p\nq"\n'.hex(), 'a_cuts': [4], 'b_hex': b'"r\ns",y\n'.hex(), 'b_cuts': [3], 'cfg': cfg_of('quoted_rfc', None)}]
+        res = finish_node(ctx, start_node(ctx, [{'op': 'interleaved', 'cases': cases}]), 300)['results'][0]['results']
+        for c, r in zip(cases, res):
+            n += 1
+            if not r['same']:
+                which = 'a' if json.dumps(r['alone_a'], sort_keys=True) != json.dumps(r['together_a'], sort_keys=True) else 'b'
+                kind = 'rejected' if r['together_' + which]['error'] is not None and r['alone_' + which]['error'] is None else 'records'
+                key = 'interleaved-readers:%s' % kind
+                if not any(f['key'] == key for f in fails):
+                    fails.append({'replay': 'none', 'key': key, 'case': c, 'expected': {'a': r['alone_a'], 'b': r['alone_b']}, 'observed': {'a': r['together_a'], 'b': r['together_b']},
+                                  'what': 'two CSVRecordIterator objects reading two streams at the same time: a reader gives a different result than when it reads alone'})
+    finally:
+        ctx.close()
+    return {'job': 'js_stream_readers_do_not_interfere', 'evaluations': n, 'distinct_nontrivial': n, 'exhaustive': False,
+            'rule': 'pairs of UTF-8 samples read by two CSVRecordIterator objects at the same time (Promise.all; the stream events interleave chunk by chunk), the first cut inside a multi-byte character, '
+                    'the second whole or cut likewise; + a CRLF and a multi-line quoted pair: every reader must return what it returns when it reads alone',
+            'bound': '%d pairs' % n, 'failures': fails, 'samples': [c['a_hex'] + ' | ' + c['b_hex'] for c in cases[:2]]}
 
 
 def oracle_failure(data, cfg, p, j):
